@@ -402,6 +402,56 @@ def translated_vs_python(run: lib.Run) -> tuple[bool, str]:
     return bad == 0, f"{bad} of {len(calls)} evaluations differ" if bad else f"agree on {len(calls)} evaluations"
 
 
+def parse_dt_vs_python(run: lib.Run) -> tuple[bool, str]:
+    """the translated `_parse_dt` (Generated.Src.parse_dt, harness/pytolean_rel.py, evaluated by `lake env lean --run Rbacx/Run/SrcEvalRel.lean`)
+    against the REAL `_parse_dt` on the value grid × strict arguments: the returned datetime (awareness bit and UTC instant) or WHICH exception.
+    The two external expressions of the translation — `datetime.fromtimestamp(float(x), tz=timezone.utc)`, `datetime.fromisoformat(x.replace('Z',
+    '+00:00'))` — get their outcome (value or raised class) from CPython's datetime on this very `x`.  Validates harness/pytolean_rel.py and
+    the datetime operations of Model/PyRel.lean, the two things C04_parse_dt_translated trusts."""
+    import json
+    import subprocess
+    extra = [datetime(1970, 1, 1), datetime(2024, 6, 1, 12, 0, 0, 5, tzinfo=timezone.utc), -1.5, 0.0, -0.0, float("-inf"), 253402300800, 253402300799,
+             -62135596800, -62135596801, 1e18, -1e18, 2 ** 63, "2024-06-01T12:00:00", "2024-06-01T12:00:00.123456Z", "2024-13-01", "Z", "z",
+             "2024-06-01T12:00:00z", "2024-06-01 12:00:00+00:00", "20240601", "2024-06-01T12:00:00+0200", "1717243200", " 2024-06-01", (1, 2), [1717243200]]
+    from datetime import timedelta
+    extra.append(datetime(2024, 6, 1, 12, 0, 0, tzinfo=timezone(timedelta(hours=2))))
+    calls = []
+    for x in values() + extra:
+        for strict in (None, False, True, 0, 1, "", "x", [], [0]):
+            ext = {"fromtimestamp": [], "fromisoformat": []}
+            try:
+                ex = proto.enc(x)
+            except TypeError:
+                continue
+            if isinstance(x, (int, float)):
+                ext["fromtimestamp"].append([[ex], _outcome(lambda: datetime.fromtimestamp(float(x), tz=timezone.utc))])
+            if isinstance(x, str):
+                ext["fromisoformat"].append([[ex], _outcome(lambda: datetime.fromisoformat(x.replace("Z", "+00:00")))])
+            want = _outcome(lambda: rpolicy._parse_dt(x, strict))
+            want_kw = _outcome(lambda: rpolicy._parse_dt(x, strict=strict))
+            if want is None or want != want_kw or any(r_[1] is None for rows in ext.values() for r_ in rows):
+                return False, f"_parse_dt({x!r}, {strict!r}): a result outside the value universe, or positional and keyword call differ"
+            calls.append((json.dumps({"fn": "_parse_dt", "args": [ex, proto.enc(strict)], "ext": ext}), want, (x, strict)))
+    p = subprocess.run(["lake", "env", "lean", "--run", "Rbacx/Run/SrcEvalRel.lean"], cwd=lib.LEAN, input="\n".join(c[0] for c in calls) + "\n",
+                       capture_output=True, text=True, timeout=900)
+    outs = [ln for ln in p.stdout.split("\n") if ln]
+    if p.returncode != 0 or len(outs) != len(calls):
+        return False, "SrcEvalRel: " + (p.stderr or p.stdout)[-800:]
+    bad = 0
+    for (_line, want, raw), ln in zip(calls, outs):
+        got = json.loads(ln)
+        run.count("translated-parse_dt")
+        run.count("translated-parse_dt: -> " + (want["err"] if "err" in want else ("aware datetime" if want["ok"][1] else "NAIVE datetime")))
+        if got != want:
+            bad += 1
+            if bad == 1:
+                run.disagreements.append({"part": "translated source vs python", "function": "_parse_dt", "label": "_parse_dt", "args": [repr(a) for a in raw],
+                                          "impl": {"python": want}, "model": got,
+                                          "what": "the translated _parse_dt (Generated.Src.parse_dt) and the real function differ"})
+    run.evaluations += len(calls)
+    return bad == 0, f"{bad} of {len(calls)} evaluations differ" if bad else f"agree on {len(calls)} evaluations"
+
+
 def check(run: lib.Run, audit: dict) -> int:
     run.rule = ("exhaustive cells: 15 operators × 38 left values × 38 right values (incl. a 12-element list and lists with a nested list / object member) (every JSON kind, near-duplicates 1/'1'/1.0/True, "
                 "NaN/Inf/10^400, NFC/NFD twins, case and trailing-blank twins, ISO strings, epochs, naive/aware datetimes) × lax/strict × literal/attribute placement "
@@ -430,7 +480,28 @@ def check(run: lib.Run, audit: dict) -> int:
         ok_py, detail_py = translated_vs_python(run)
     run.obligation("translated condition evaluator evaluates like the real eval_condition and helpers, exceptions included "
                    "(harness/pytolean_except.py + Model/PyExcept.lean vs CPython)", ok_py, detail_py)
-    run_cases(run, audit, scale=run.boost * (1 if ok_tr else 2))
+    # `_parse_dt` — an external parameter of the translation above — as it is written NOW is proved equal to the model's parseDt (the
+    # instantiation of that parameter in C04_translated), the two datetime conversions staying oracles
+    trr = audit["facts"].get("translated_rel")
+    pd = trr.get("parse_dt") if isinstance(trr, dict) else None
+    pd_failed = (trr or {}).get("extraction_failed") if isinstance(trr, dict) else None
+    if isinstance(pd, dict) and "extraction_failed" in pd:
+        pd_failed = pd["extraction_failed"]
+    ok_pd, detail_pd = lib.run_obligation("C04_parse_dt_translated", deps=["C04_translated"])
+    run.obligation("C04_parse_dt_translated: Generated.Src.parse_dt (the current source text of _parse_dt; externals = the expressions "
+                   "datetime.fromtimestamp(float(x), tz=timezone.utc) and datetime.fromisoformat(x.replace('Z', '+00:00')), instantiated with the "
+                   "oracle) = the model's parseDt: the instant as an aware datetime or ConditionTypeError, never another exception, for every "
+                   "value, strict argument and oracle", ok_pd, "discharged" if ok_pd else (str(pd_failed) if pd_failed else detail_pd))
+    if pd_failed or not isinstance(pd, dict):
+        ok_pdpy, detail_pdpy = True, "skipped: _parse_dt is not in the translatable subset (see C04_parse_dt_translated)"
+    else:
+        ok_pdpy, detail_pdpy = parse_dt_vs_python(run)
+    run.obligation("translated _parse_dt evaluates like the real _parse_dt on the value grid × strict arguments, exceptions included "
+                   "(harness/pytolean_rel.py + Model/PyRel.lean vs CPython; datetime conversions taken from CPython)", ok_pdpy, detail_pdpy)
+    if ok_py and not ok_pdpy:
+        detail_py = detail_pdpy
+    ok_py = ok_py and ok_pdpy
+    run_cases(run, audit, scale=run.boost * (1 if ok_tr and ok_pd else 2))
     violations = []
     tr_dis = [d for d in run.disagreements if d.get("part") == "translated source vs python"]
     model_dis = [d for d in run.disagreements if d.get("part") != "translated source vs python"]
@@ -451,6 +522,13 @@ def check(run: lib.Run, audit: dict) -> int:
                                                "whose result differs from the documented semantics",
                                                "translation": (tr.get("extraction_failed") if isinstance(tr, dict) else tr),
                                                "lean": detail_tr[-1500:], "first_disagreement": tr_dis[:1]})
+        violations.append((path, False))
+    elif not ok_pd:
+        path = run.write_replay("obligation", {"what": "per-run obligation Rbacx/Run/C04_parse_dt_translated.lean no longer checks: the translated source of "
+                                               "_parse_dt is not proved equal to the model's parseDt (strict / lax dispatch, bool exclusion, naive => UTC, "
+                                               "every conversion failure => ConditionTypeError), the function theorems Rbacx.C04.* / Rbacx.C06.* are about; "
+                                               "the widened search found no condition whose result differs from the documented semantics",
+                                               "translation": pd_failed, "lean": detail_pd[-1500:], "first_disagreement": tr_dis[:1]})
         violations.append((path, False))
     elif tr_dis or not ok_py:
         first = tr_dis[0] if tr_dis else {"part": "translated source vs python", "what": detail_py}
